@@ -176,7 +176,7 @@ def enumerate_specs(tier):
             if tier == "quick":
                 variants = [("R" if k % 2 == 0 else "T", k % 3 == 1, "P")]
             else:
-                variants = [(lcv, late, "P") for lcv in ("R", "T", "M") for late in (False, True)] + [("R", False, "K"), ("T", True, "K")]
+                variants = [("R", False, "P"), ("T", True, "P"), ("M", k % 2 == 0, "P"), ("R", k % 2 == 1, "K")]
             for lcv, late, flav in variants:
                 specs.append(build(shape, pat, lcv, late, flav))
             k += 1
@@ -195,7 +195,7 @@ def enumerate_specs(tier):
                     continue
                 if tier == "quick" and shape == "R>A,R>B" and (t1_at != "R" or pat["B"]):
                     continue
-                for lcv, late in ([("R", False)] if tier == "quick" else [("R", False), ("T", True)]):
+                for lcv, late in ([("R", False)] if tier == "quick" or shape != "R>A" else [("R", False), ("T", True)]):
                     specs.append(build(shape, pat, lcv, late, "P", t1_at=t1_at))
     # generic members
     for shape in t1_shapes:
@@ -221,8 +221,7 @@ def enumerate_specs(tier):
     for shape, pat in mixes:
         n = sum(pat.values())
         for lcs in itertools.product("SRT", repeat=n):
-            for late in ([False] if tier == "quick" else [False, True]):
-                specs.append(build(shape, pat, "".join(lcs), late, "P"))
+            specs.append(build(shape, pat, "".join(lcs), False, "P"))
     for i, s in enumerate(specs):
         s["id"] = f"scope{i:05d}"
     return specs
@@ -350,7 +349,7 @@ def oracle_c04_scope(obs, rep, tier):
         "evaluations": n_req + cov_a["evaluations"], "distinct_nontrivial": len(distinct), "exhaustive": True,
         "rule": "nesting trees R | R>A | R>A,R>B" + (" | R>A>B" if tier == "thorough" else "") + "; constructor of T0 registered 0/1/2 times "
                 "per blueprint (all subsets of levels, twice in <= 1 blueprint, every registration a different function), request-scoped / "
-                "transient" + (" / mixed, before or after the routes, flavours P and K+clone-if-necessary" if tier == "thorough" else
+                "transient" + (" / mixed, before or after the routes (alternating), flavours P and K+clone-if-necessary" if tier == "thorough" else
                                " (alternating), before or after the routes (alternating)") +
                 ", a route taking &T0 in every blueprint that sees a registration; T1 members (constructor of T1 needing &T0 in one blueprint, "
                 "routes taking &T1 below it) and generic members (C_WRAP_GENERIC specialised by a route taking &Wrap<T0P>). Oracle: the `by` "
